@@ -116,6 +116,8 @@ def c13(proj, rep, tier):
     rep.floor('ZS1 closed-form measure functions scanned for tolerance-gated zeros', n, 6)
     n = round3b.v4(proj, rep, ['numqi.entangle.eof', 'numqi.entangle.measure'] if tier == 'quick' else None)
     rep.floor('V4 convex-roof forward methods', n, 4)
+    n = round3b.v5(proj, rep, ['numqi.entangle.eof', 'numqi.entangle.measure'] if tier == 'quick' else None)
+    rep.floor('V5 convex-roof forward methods with ensemble weights', n, 2)
     n = kdefects.fz1_so1_id1_ev1(proj, rep, M13)
     rep.floor('EV1 / FZ1 / SO1 / ID1 lint sweep: functions scanned (eof / measure / _misc)', n, 30)
     rep.assume('ranges, local-unitary invariance, monotone relations between the measures, "non-zero iff NPT" and loss >= closed form '
@@ -301,6 +303,8 @@ def c12(proj, rep, tier):
     rep.floor('AL2 probe calls of user channel callables', n, 2)
     n = round3b.ch1_ln1(proj, rep)
     rep.floor('CH1 probe loops + LN1 linear application functions', n, 6)
+    nfun, nq = round3b.qf1_hm6_ac1_lg1(proj, rep, ['numqi.utils', 'numqi.channel'] if tier == 'quick' else None)
+    rep.floor('QF1 quadratic forms vdot(v, M @ v) in utils + channel', nq, 2)
     round3b.dt9(proj, rep, ['numqi.gellmann', 'numqi.channel', 'numqi.utils'] if tier == 'quick' else None)
     n6, n7 = round3b.f6_f7(proj, rep, ['numqi.utils', 'numqi.channel'])
     rep.floor('F6 functions of utils + channel scanned (sqrtm / entr of a raw spectrum)', n6, 30)
@@ -340,6 +344,8 @@ def c15(proj, rep, tier):
     round3b.al4(proj, rep, G15)
     n = round3b.ag6(proj, rep)
     rep.floor('AG6 comparisons with the gimbal tolerance in the angle extraction', n, 2)
+    n = round3b.pg2_ag7_m3g(proj, rep, {'PG2', 'AG7'})
+    rep.floor('PG2 / AG7 obligations (spin-j angle wrap, 4 pi sheet test)', n, 2)
     rep.assume('numerical accuracy of the recovered angles, the SU(2)->SO(3) homomorphism, Wigner-d and Clebsch-Gordan relations are '
                'value-level: not decided. Decided: batches are converted element-wise (MS1); full-circle angles are never recovered from '
                'one arccos alone (AG1); arccos arguments that reach 1+ulp at degenerate rotations are clipped (F3).')
@@ -361,6 +367,8 @@ def c16(proj, rep, tier):
     rep.floor('F9 square roots in numqi.gellmann scanned for norm-difference cancellation', n, 2)
     round3b.ax2(proj, rep, ['numqi.gellmann'] if tier == 'quick' else None)
     round3b.dt9(proj, rep, ['numqi.gellmann'] if tier == 'quick' else None)
+    n = round3b.gellmann_dtype(proj, rep)
+    rep.floor('DT11 torch constructors in numqi.gellmann', n, 3)
     nopen, nfun = round3b.ax1_sm1_sinc1_vm1(proj, rep, ['numqi.gellmann'])
     nsite, ntyped = gellmann.g2(proj, rep, None)
     rep.floor('G2 synthesis call sites in the package', nsite, 20)
@@ -516,6 +524,8 @@ def c11(proj, rep, tier):
     rep.floor('M3 Born-rule / collapse structure obligations', n, 7)
     n = round3b.d7(proj, rep)
     rep.floor('D7 dispatch arms of Circuit.apply_state', n, 4)
+    n = round3b.pg2_ag7_m3g(proj, rep, {'M3G'})
+    rep.floor('M3(g) tolerance obligation of measure_quantum_vector', n, 1)
     n = round3b.tr1(proj, rep, ['numqi.sim'] if tier == 'quick' else None)
     rep.floor('TR1 functions with an int-capable parameter (simulator)', n, 10)
     n = kdefects.pu2(proj, rep, ['numqi.sim.circuit.Circuit'])
@@ -558,6 +568,10 @@ def c18(proj, rep, tier):
     n6, n7 = round3b.f6_f7(proj, rep, ['numqi.utils', 'numqi.state._internal'])
     rep.floor('F7 entr sites in utils + state catalogue', n7, 2)
     n = round3b.rp1(proj, rep, ['numqi.entangle.upb.load_upb'])
+    n = round3b.upb1_gr8(proj, rep, {'UPB1'})
+    rep.floor('UPB1 pairs of the literal four-qubit UPB', n, 15)
+    nfun, nq = round3b.qf1_hm6_ac1_lg1(proj, rep, ['numqi.state', 'numqi.entangle.upb', 'numqi.dicke', 'numqi.unique_determine._internal'] if tier == 'quick' else None)
+    rep.floor('HM6 / AC1 / LG1 / QF1 sweep: functions scanned (catalogue modules)', nfun, 40)
     rep.floor('RP1 two-party block lists built from role-suffixed parameters', n, 1)
 
 
@@ -591,6 +605,8 @@ def c20(proj, rep, tier):
     nfun, nre = round3b.fs1_ar4_t4(proj, rep, G20)
     rep.floor('FS1 / AR4 / T4 sweep: functions scanned (matrix_space)', nfun, 30)
     rep.floor('AR4 grouped reshapes of multipartite tensors', nre, 2)
+    nfun, nq = round3b.qf1_hm6_ac1_lg1(proj, rep, G20)
+    rep.floor('AC1 / HM6 / LG1 / QF1 sweep: functions scanned (matrix_space)', nfun, 30)
 
 
 def c17(proj, rep, tier):
@@ -615,6 +631,8 @@ def c17(proj, rep, tier):
     rep.floor('NR1 reduction maps that stay linear', n, 2)
     n = round3b.mr2(proj, rep)
     rep.floor('MR2 radix keys in numqi.dicke', n, 2)
+    nfun, nq = round3b.qf1_hm6_ac1_lg1(proj, rep, ['numqi.dicke', 'numqi.utils'] if tier == 'quick' else None)
+    rep.floor('LG1 / HM6 / AC1 / QF1 sweep: functions scanned (dicke + utils)', nfun, 20)
     n = round3b.tr1(proj, rep, ['numqi.utils', 'numqi.dicke'] if tier == 'quick' else None)
     rep.floor('TR1 functions with an int-capable parameter (utils + dicke)', n, 3)
     rep.assume('orthonormality / permutation invariance of the Dicke vectors and the occupation-number identity itself '
@@ -677,6 +695,9 @@ def c14(proj, rep, tier):
     rep.floor('UP1 parameters read beyond their own normalisation (group modules)', n, 40)
     n = round3b.dt8_ov1(proj, rep, G14)
     rep.floor('DT8 / OV1 sweep: functions scanned (group modules)', n, 25)
+    nfun, nq = round3b.qf1_hm6_ac1_lg1(proj, rep, G14)
+    rep.floor('HM6 / AC1 / LG1 / QF1 sweep: functions scanned (group modules)', nfun, 25)
+    round3b.upb1_gr8(proj, rep, {'GR8'})
     rep.assume('that a computed table satisfies the group axioms, that irreducible blocks are unitary homomorphisms with sum d^2 = |G|, that the Young-diagram '
                'list is the set of partitions and that the tableau enumeration matches the hook-length count are value-level: not decided')
 
